@@ -5,7 +5,7 @@ open HailVerif HailVerif.DriverUtil HailVerif.TxRetry
 /-! line: `<init> | <body> | <scripts>` with
   init    = `k=v` tokens (initial rows),
   body    = `n` (nop) | `u:k:d` (upsert) | `i:k:v` (insert) | `w:k:d` (update) | `r:k:0` / `a:k:0` (select through
-            execute_and_fetchone / execute_and_fetchall) tokens; a 4th component `:q` = the statement is issued with a query_name,
+            execute_and_fetchone / execute_and_fetchall) | `m:k:d:n` (execute_many with n argument rows) tokens; a 4th component `:q` = the statement is issued with a query_name,
   scripts = per attempt `-` (no fault) or `idx:cls:code`,
 answer: `attempts=N result=ok|err:cls:code db=k=v,k=v` -/
 
@@ -30,6 +30,8 @@ def parseKind (kind k d : String) : Option KV.Stmt :=
 def parseStmt (t : String) : Option (Bool × KV.Stmt) :=
   match t.splitOn ":" with
   | ["n"] => some (false, .nop)
+  | ["m", k, d, n] => do some (false, .upsertMany (← k.toNat?) (← d.toInt?) (← n.toNat?))
+  | ["m", k, d, n, "q"] => do some (true, .upsertMany (← k.toNat?) (← d.toInt?) (← n.toNat?))
   | [kind, k, d] => do some (false, ← parseKind kind k d)
   | [kind, k, d, "q"] => do some (true, ← parseKind kind k d)
   | _ => none
